@@ -105,7 +105,7 @@ func (e *Exec) call(s *State, site ssa.Instruction, cc *ssa.CallCommon, res ssa.
 	}
 	sp := e.p.specFor(callee)
 	args := e.callArgs(s, site, cc)
-	if sp != nil && (sp.Trusted || !sp.Inline) && callee != e.root.fn {
+	if sp != nil && (sp.Trusted || !sp.Inline) && callee != e.root.fn && !e.root.forcedInline(callee) {
 		e.contractCall(s, site, callee, sp, args, res)
 		return
 	}
@@ -601,6 +601,49 @@ func (e *Exec) inline(s *State, site ssa.Instruction, callee *ssa.Function, args
 		}
 	}
 	rs, ns := sub.run(st0, args)
+	// tail position (`return f(x)`): keep the callee's return paths apart instead of merging
+	// them, so that the caller's postconditions are checked path by path
+	if call, ok := site.(*ssa.Call); ok && ns != nil && len(sub.rets) > 1 && e.tailOnly(call) {
+		blk := call.Block()
+		after := false
+		for _, r := range sub.rets {
+			if r.st.pc == "false" {
+				continue
+			}
+			ps := r.st.clone()
+			ps.regs = map[ssa.Value]Val{}
+			for k, v := range saved {
+				ps.regs[k] = v
+			}
+			ps.regs[call] = r.vals
+			e.enter(ps)
+			after = false
+			for _, in := range blk.Instrs {
+				if in == ssa.Instruction(call) {
+					after = true
+					continue
+				}
+				if !after {
+					continue
+				}
+				if x, ok := in.(*ssa.Return); ok {
+					var vals Val
+					for _, rv := range x.Results {
+						vals = append(vals, e.val(ps, rv)...)
+					}
+					e.rets = append(e.rets, retPoint{st: ps.clone(), vals: vals, pos: x.Pos(), blk: blk.Index})
+				} else {
+					e.step(ps, in)
+				}
+			}
+		}
+		s.pc = "false"
+		s.regs = saved
+		if res != nil {
+			s.regs[res] = rs
+		}
+		return
+	}
 	if ns == nil {
 		// callee never returns normally on any path: the continuation is unreachable
 		s.pc = "false"
@@ -854,7 +897,22 @@ func (e *Exec) backEdge(from, to *ssa.BasicBlock, cond string, s *State) {
 }
 
 // unrollFor: how often the loop headed by b is unrolled (0: cut by invariant).
+func (e *Exec) forcedInline(callee *ssa.Function) bool {
+	if e.spec == nil {
+		return false
+	}
+	for _, n := range e.spec.InlineCalls {
+		if n == callee.Name() || (callee.Pkg != nil && n == callee.RelString(callee.Pkg.Pkg)) {
+			return true
+		}
+	}
+	return false
+}
+
 func (e *Exec) unrollFor(b *ssa.BasicBlock) (int, bool) {
+	if e != e.root && e.root.spec != nil && e.root.spec.Unroll > 0 && e.root.forcedInline(e.fn) {
+		return e.root.spec.Unroll, e.root.spec.UnrollComplete // a lemma that executes this callee's body with its own bound
+	}
 	if ls := e.loopSpec(b); ls != nil {
 		if ls.Unroll > 0 {
 			return ls.Unroll, ls.Complete
@@ -864,7 +922,7 @@ func (e *Exec) unrollFor(b *ssa.BasicBlock) (int, bool) {
 		}
 	}
 	if e.spec != nil && e.spec.Unroll > 0 {
-		return e.spec.Unroll, false
+		return e.spec.Unroll, e.spec.UnrollComplete
 	}
 	if e.root.spec != nil && e.root.spec.Unroll > 0 && e != e.root && e.loopSpec(b) == nil {
 		return e.root.spec.Unroll, false // inlined callee without its own loop contract, in a bounded lemma
@@ -949,7 +1007,7 @@ func (e *Exec) execRegion(order []*ssa.BasicBlock, incoming map[*ssa.BasicBlock]
 		}
 		// a block that only returns is executed once per incoming edge: the
 		// postconditions are then checked per path instead of on a merged state
-		if _, isRet := b.Instrs[len(b.Instrs)-1].(*ssa.Return); isRet && len(ins) > 1 && !isLoopHeader(b) && !hasPhi(b) && simpleBlock(b) {
+		if _, isRet := b.Instrs[len(b.Instrs)-1].(*ssa.Return); isRet && len(ins) > 1 && len(ins) <= 16 && !isLoopHeader(b) && !hasPhi(b) && (simpleBlock(b) || len(b.Instrs) <= 40) {
 			for _, ed := range ins {
 				s := e.merge([]edge{ed})
 				if s.pc == "false" {
@@ -958,6 +1016,9 @@ func (e *Exec) execRegion(order []*ssa.BasicBlock, incoming map[*ssa.BasicBlock]
 				e.enter(s)
 				for _, in := range b.Instrs {
 					if x, ok := in.(*ssa.Return); ok {
+						if s.pc == "false" {
+							break
+						}
 						var vals Val
 						for _, r := range x.Results {
 							vals = append(vals, e.val(s, r)...)
@@ -1020,7 +1081,9 @@ func (e *Exec) execRegion(order []*ssa.BasicBlock, incoming map[*ssa.BasicBlock]
 				for _, r := range x.Results {
 					vals = append(vals, e.val(s, r)...)
 				}
-				e.rets = append(e.rets, retPoint{st: s.clone(), vals: vals, pos: x.Pos(), blk: b.Index})
+				if s.pc != "false" {
+					e.rets = append(e.rets, retPoint{st: s.clone(), vals: vals, pos: x.Pos(), blk: b.Index})
+				}
 			default:
 				e.step(s, in)
 			}
@@ -1087,4 +1150,33 @@ func (e *Exec) loopHead(b *ssa.BasicBlock, s *State) {
 			li.measure = env.evalInt(ls.Decreases)
 		}
 	}
+}
+
+// tailOnly: after the call its block only extracts results and returns.
+func (e *Exec) tailOnly(call *ssa.Call) bool {
+	blk := call.Block()
+	if _, ok := blk.Instrs[len(blk.Instrs)-1].(*ssa.Return); !ok {
+		return false
+	}
+	after := false
+	for _, in := range blk.Instrs {
+		if in == ssa.Instruction(call) {
+			after = true
+			continue
+		}
+		if !after {
+			continue
+		}
+		switch x := in.(type) {
+		case *ssa.Extract, *ssa.Return, *ssa.DebugRef, *ssa.RunDefers, *ssa.BinOp, *ssa.Convert, *ssa.ChangeType, *ssa.FieldAddr:
+		case *ssa.Store:
+			if a, ok := x.Addr.(*ssa.Alloc); !ok || !isScalarLocal(a) {
+				return false
+			}
+		case *ssa.UnOp:
+		default:
+			return false
+		}
+	}
+	return len(e.defers) == 0
 }
